@@ -8,12 +8,17 @@ import (
 
 	"github.com/emitter-io/emitter/verif/core"
 	vcrdt "github.com/emitter-io/emitter/verif/drivers/crdt"
+	"github.com/emitter-io/emitter/verif/drivers/session"
 	"github.com/emitter-io/emitter/verif/drivers/trie"
 )
 
 var checks = map[string]func(*core.Ctx){
 	"C01": trie.Run,
+	"C02": session.RunC02,
 	"C04": vcrdt.Run,
+	"C07": session.RunC07,
+	"C08": session.RunC08,
+	"C18": session.RunC18,
 }
 
 func main() {
